@@ -603,6 +603,62 @@ func rulesC19(c *Ctx) {
 		}
 		ev := g.callVertices(enc)
 		c.Check(nl >= 1 && len(ev) == 1, "ioConn.Write:one-newline-per-message", iw, nil, "each encoded message gets exactly one '\\n' appended (%d append sites across the three write paths)", nl)
+		// per write path: what was encoded is written, after exactly one delimiter was appended to it
+		mm := c.FnObj(pM, "", "marshalMessages")
+		rwcF := c.Field(pM, "ioConn", "rwc")
+		nPath := 0
+		for _, ecall := range iw.AllCalls(iw.Body, false) {
+			if !iw.IsCallTo(ecall, enc) && !iw.IsCallTo(ecall, mm) {
+				continue
+			}
+			as, isAs := iw.ParentOf(ecall).(*ast.AssignStmt)
+			if !isAs || len(as.Lhs) != 2 {
+				continue
+			}
+			nPath++
+			d, eerr := iw.ObjOf(as.Lhs[0]), iw.ObjOf(as.Lhs[1])
+			evx := g.VertexOf(ecall)
+			isWrite := func(v int) bool {
+				for _, call := range iw.AllCalls(g.Node(v), false) {
+					if sel, ok := ast.Unparen(call.Fun).(*ast.SelectorExpr); ok && sel.Sel.Name == "Write" && iw.IsField(sel.X, rwcF) && len(call.Args) == 1 && iw.ObjOf(call.Args[0]) == d {
+						return true
+					}
+				}
+				return false
+			}
+			isNL := func(v int) bool {
+				for _, w := range Writes(g.Node(v), false) {
+					if ce, ok := ast.Unparen(w.RHS).(*ast.CallExpr); ok && w.RHS != nil && iw.ObjOf(w.LHS) == d && iw.BuiltinName(ce) == "append" && len(ce.Args) == 2 && iw.ObjOf(ce.Args[0]) == d && exprStr(ce.Args[1]) == "'\\n'" {
+						return true
+					}
+				}
+				return false
+			}
+			var wvs, nls []int
+			for v := 0; v < g.N; v++ {
+				if g.Node(v) != nil && isWrite(v) {
+					wvs = append(wvs, v)
+				}
+				if g.Node(v) != nil && isNL(v) {
+					nls = append(nls, v)
+				}
+			}
+			ok := len(wvs) == 1 && len(nls) == 1
+			if ok {
+				p1, _ := g.MustPass(evx, wvs, isNL)
+				ok = p1
+				// when encoding succeeded the bytes always reach the stream
+				reached := false
+				for _, t := range g.edgesWhere(func(a Atom) bool { return AtomSaysNil(a, true, func(e ast.Expr) bool { return iw.ObjOf(e) == eerr }) }) {
+					if g.Dominates(evx, t) && !g.writtenBetween(eerr, evx, t) && g.allPathsPass(t, isWrite) {
+						reached = true
+					}
+				}
+				ok = ok && reached
+			}
+			c.Check(ok, "ioConn.Write:encode-delimit-write#"+itoa(nPath), iw, ecall, "the bytes produced here get exactly one '\\n' and are then written to the stream on every path on which encoding succeeded (%d write, %d delimiter sites for this buffer)", len(wvs), len(nls))
+		}
+		c.Pin("encode→write paths in ioConn.Write", nPath, 3)
 		for _, call := range iw.AllCalls(iw.Body, false) {
 			if fn := iw.Callee(call); fn != nil && fn.Name() == "Write" && strings.Contains(exprStr(call.Fun), "rwc") {
 				c.Check(iw.heldLocal(call)["ioConn.writeMu"], "ioConn.Write:write-under-lock", iw, call, "the stream write happens under writeMu (messages cannot interleave)")
